@@ -427,14 +427,14 @@ def facts():
     if exe is None:
         raise RuntimeError("no ConfigState driver built yet")
     out = subprocess.run([exe, "--oracle"], capture_output=True, text=True, timeout=60).stdout
-    f = dict(cert={}, hc={}, sozu_id={}, alpn={}, sizes={}, fields={})
+    f = dict(cert={}, hc={}, sozu_id={}, alpn={}, hsts={}, sizes={}, fields={})
     for line in out.splitlines():
         w = line.split()
         if not w:
             continue
         if w[0] == "cert":
             f["cert"][int(w[1])] = (int(w[2]), int(w[3]), [int(x) for x in w[4:]])
-        elif w[0] in ("hc", "sozu_id", "alpn"):
+        elif w[0] in ("hc", "sozu_id", "alpn", "hsts"):
             f[w[0]][int(w[1])] = int(w[2])
         elif w[0] == "sizes":
             for k, v in zip(w[1::2], w[2::2]):
@@ -478,6 +478,8 @@ def patch_ok(name, v):
         return F["sozu_id"][v % len(F["sozu_id"])]
     if name == "alpn_protocols":
         return F["alpn"][v % len(F["alpn"])]
+    if name == "hsts":
+        return F["hsts"][v % len(F["hsts"])]
     return 1
 
 
@@ -529,9 +531,13 @@ def patch_value(rng, name, want_bad=None):
         good = [i for i, ok in F["alpn"].items() if ok]
         bad = [i for i, ok in F["alpn"].items() if not ok]
         return rng.choice(bad if want_bad else good) if want_bad is not None else rng.choice(good + bad)
+    if name == "hsts":
+        good = [i for i, ok in F["hsts"].items() if ok]
+        bad = [i for i, ok in F["hsts"].items() if not ok]
+        return rng.choice(bad if want_bad else good) if want_bad is not None else rng.choice(good + bad)
     if name == "public_address":
         return rng.randrange(4)
-    if name in ("expect_proxy", "strict_sni_binding", "disable_http11"):
+    if name in ("expect_proxy", "strict_sni_binding", "disable_http11", "elide_x_real_ip", "send_x_real_ip"):
         return rng.randrange(2)
     if name == "sticky_name":
         return rng.choice([0, 1, 2])
@@ -593,8 +599,10 @@ def rand_listener(rng, kind, addr):
             over[n] = rng.randrange(5)
         elif n in ("expect_proxy",):
             over[n] = rng.randrange(2)
-        elif n in ("strict_sni_binding", "disable_http11"):
+        elif n in ("strict_sni_binding", "disable_http11", "elide_x_real_ip", "send_x_real_ip"):
             over[n] = rng.randrange(3)
+        elif n == "hsts":
+            over[n] = rng.randrange(5)
         elif n == "sticky_name":
             over[n] = rng.choice([0, 1, 2])
         else:
